@@ -9,7 +9,7 @@
 From Coq Require Import String.
 From Coq Require Extraction.
 From Coq Require ExtrOcamlBasic.
-From Ldlm Require Import Model.Base Model.Err Model.Lk.
+From Ldlm Require Import Model.Base Model.Err Model.Lk Model.LkTrace.
 
 Definition lk_threads (s : lstate) : list (nat * thread) := map_to_list (l_thr s).
 Definition lk_objs (s : lstate) : list (nat * lobj) := map_to_list (l_heap s).
@@ -40,9 +40,13 @@ Definition lk_finished (s : lstate) (tid : nat) : bool :=
 
 Definition lk_result (pc : lpc) : option lres := match pc with PFin r => Some r | _ => None end.
 
+(** [lk_trace_verdict] (Model/LkTrace.v): the trace predicates p_fresh, p_wellformed, p_c01, p_c02_once,
+    p_c02_fail_consumes_nothing, p_c03_giveup as "first offending prefix"; proved [None] on every model trace
+    (Proofs/LkTraceP.v, mlk_trace_verdict); `lkdriver trace` evaluates it on the real call/return histories. *)
 Definition byte_to_N := Byte.to_N.
 Definition byte_of_N := Byte.of_N.
 Definition err_name_b (e : err) : list byte := list_byte_of_string (err_go_name e).
 
 Extraction "lkmodel.ml" lstep l_init pc_label lk_threads lk_objs lk_names lk_table lk_forced lk_gcpass lk_enabled
-  lk_finished lk_result no_call_in_flight byte_to_N byte_of_N err_name_b all_errs.
+  lk_finished lk_result no_call_in_flight byte_to_N byte_of_N err_name_b all_errs
+  lk_trace_verdict live_holds obsh.
